@@ -63,6 +63,118 @@ def dm_from(S, C):
     return (270.0 - R2D * math.atan2(S, C)) % 360.0
 
 
+def _at(v, pos):
+    if hasattr(v, "data_vars"):
+        v = v[list(v.data_vars)[0]]
+    v = v.isel({k: i for k, i in pos.items() if k in v.dims})
+    return v.compute() if hasattr(v, "compute") else v
+
+
+def make_case(args):
+    seed, icase = args
+    from ..common import case_rng
+
+    rng = case_rng("C01", seed, icase)
+    reqs, ctxs = [], []
+    exact = rng.random() < 0.5
+    nf = rng.choice([1, 2, 3, 4, 5, 8, 12, 25, 32]) if rng.random() < 0.8 else rng.randint(1, 40)
+    oned = rng.random() < 0.12
+    nd = None if oned else (rng.choice(gen.EXACT_ND) if exact or rng.random() < 0.5 else rng.randint(1, 50))
+    freq, fkind = gen.gen_freq(rng, nf, exact=exact)
+    if oned:
+        dirs, order = None, "1d"
+    else:
+        dirs, order = gen.gen_dirs(rng, nd, order=rng.choice(["sorted", "sorted", "rotated", "reversed", "seam"]), exact=exact)
+    dtype = rng.choice(["float64", "float64", "float32"])
+    extra = []
+    nextra = rng.choice([0, 0, 1, 2])
+    names = rng.sample(["time", "site", "lat", "lon"], nextra)
+    shape = []
+    for nme in names:
+        n = rng.randint(1, 3)
+        shape.append(n)
+        if nme == "time":
+            dt = rng.choice([1800, 3600, 10800])
+            vals = np.array(["2020-01-01T00:00:00"], dtype="datetime64[s]") + np.arange(n) * np.timedelta64(dt, "s")
+            extra.append((nme, vals.astype("datetime64[ns]")))
+        else:
+            extra.append((nme, np.arange(n, dtype=float)))
+    npos = int(np.prod(shape)) if shape else 1
+    kinds = []
+    Es = []
+    for _ in range(npos):
+        E, kind = gen.gen_spectrum(rng, nf, nd or 1, exact=exact)
+        if not exact and kind not in ("zero",):
+            E = E * rng.choice([1e-3, 1.0, 37.5])
+        Es.append(E)
+        kinds.append(kind)
+    arr = np.array(Es).reshape(tuple(shape) + (nf, nd or 1))
+    if oned:
+        arr = arr[..., 0]
+    da = gen.make_da(freq, dirs, arr, dtype=dtype, extra=extra)
+    if rng.random() < 0.3 and da.ndim > 1:
+        perm = list(da.dims)
+        rng.shuffle(perm)
+        da = da.transpose(*perm)
+    use_ds = rng.random() < 0.3
+    obj = da.to_dataset(name="efth") if use_ds else da
+    depth = rng.choice([None, None, 5.0, 30.0, 200.0])
+    tail = rng.random() < 0.8
+    # ---------------- implementation
+    sp = obj.spec
+    impl = {}
+    try:
+        impl["hs"] = sp.hs(tail=tail)
+        impl["hrms"] = sp.hrms(tail=tail)
+        for k in range(5):
+            impl[f"m{k}"] = sp.momf(k)
+        impl["tm01"] = sp.tm01()
+        impl["tm02"] = sp.tm02()
+        impl["swe"] = sp.swe()
+        impl["sw"] = sp.sw()
+        impl["gw"] = sp.gw()
+        impl["goda"] = sp.goda()
+        impl["mss"] = sp.mss(depth=depth)
+        impl["oned"] = sp.oned()
+        impl["energy"] = sp.to_energy()
+        impl["hmax"] = sp.hmax()
+        if not oned:
+            ms, mc = sp.momd(1)
+            impl["msin"], impl["mcos"] = ms, mc
+            impl["dm"] = sp.dm()
+            impl["dspr"] = sp.dspr()
+            impl["uss"] = sp.uss(depth=depth)
+            impl["ussx"] = sp.uss_x(depth=depth)
+            impl["ussy"] = sp.uss_y(depth=depth)
+    except Exception as e:  # C20 territory, but a crash on valid input is reported here too
+        return [("CRASH", dict(what=f"{type(e).__name__}: {e}", case=dict(case=icase, nf=nf, nd=nd, kinds=kinds)))]
+    rel = 1e-9 if dtype == "float64" else 8e-6
+    lead = [d for d in da.dims if d not in ("freq", "dir")]
+    positions = [dict(zip(lead, idx)) for idx in np.ndindex(*[da.sizes[d] for d in lead])]
+    rng.shuffle(positions)
+    for pos in positions[:3]:
+        sub = da.isel(pos)
+        E2 = sub.transpose("freq", "dir").values if not oned else sub.values[:, None]
+        E2 = np.asarray(E2)
+        kt = k_table(freq, depth)
+        fk = 4 * PI * freq * kt
+        if oned:
+            s = c = []
+        else:
+            s, c = gen.trig_tables(dirs)
+        reqs.append(" ".join(["stats", "1" if tail else "0", enc_v(freq), enc_optv(dirs), enc_m(E2, E2.shape[1]),
+                              enc_v(s), enc_v(c), enc_v(fk), enc_v(kt ** 2)]))
+        kind = kinds[0] if npos == 1 else "multi"
+        ctxs.append(dict(icase=icase, pos=pos, impl={k: _at(v, pos) for k, v in impl.items()}, freq=freq, dirs=dirs, E=E2, tail=tail, depth=depth, rel=rel,
+                         dtype=dtype, oned=oned, has_time=("time" in da.dims and da.sizes["time"] > 1),
+                         dt=(float((extra[[n for n, _ in extra].index("time")][1][1] - extra[[n for n, _ in extra].index("time")][1][0]) / np.timedelta64(1, "s")) if ("time" in da.dims and da.sizes["time"] > 1) else None),
+                         sig=gen.signature(nf, nd or 0, fkind, order, kind, dtype, len(lead), "ds" if use_ds else "da"),
+                         nontrivial=bool(E2.any()) and nf >= 2,
+                         desc=dict(nf=nf, nd=nd, fkind=fkind, order=order, kinds=kinds[:3], dtype=dtype, dims=list(da.dims),
+                                   tail=tail, depth=depth)))
+    return list(zip(reqs, ctxs))
+
+
 def run_check():
     ck = Check("C01")
     ck.extra["rule"] = ("cases = (grid, spectrum kind, dtype, container) drawn from the shared generators; signature = "
@@ -73,107 +185,17 @@ def run_check():
     import xarray as xr
     from wavespectra.core import npstats, utils
 
-    rng = ck.rng
+    from ..common import pmap
+
     ncases = 220 if ck.tier == "quick" else 3000
     reqs, ctxs = [], []
-    for icase in range(ncases):
-        exact = rng.random() < 0.5
-        nf = rng.choice([1, 2, 3, 4, 5, 8, 12, 25, 32]) if rng.random() < 0.8 else rng.randint(1, 40)
-        oned = rng.random() < 0.12
-        nd = None if oned else (rng.choice(gen.EXACT_ND) if exact or rng.random() < 0.5 else rng.randint(1, 50))
-        freq, fkind = gen.gen_freq(rng, nf, exact=exact)
-        if oned:
-            dirs, order = None, "1d"
-        else:
-            dirs, order = gen.gen_dirs(rng, nd, order=rng.choice(["sorted", "sorted", "rotated", "reversed", "seam"]), exact=exact)
-        dtype = rng.choice(["float64", "float64", "float32"])
-        extra = []
-        nextra = rng.choice([0, 0, 1, 2])
-        names = rng.sample(["time", "site", "lat", "lon"], nextra)
-        shape = []
-        for nme in names:
-            n = rng.randint(1, 3)
-            shape.append(n)
-            if nme == "time":
-                dt = rng.choice([1800, 3600, 10800])
-                vals = np.array(["2020-01-01T00:00:00"], dtype="datetime64[s]") + np.arange(n) * np.timedelta64(dt, "s")
-                extra.append((nme, vals.astype("datetime64[ns]")))
+    for res in pmap(make_case, [(ck.seed, i) for i in range(ncases)]):
+        for req, ctx in res:
+            if req == "CRASH":
+                ck.fail("stats", ctx["what"], ctx["case"], None)
             else:
-                extra.append((nme, np.arange(n, dtype=float)))
-        npos = int(np.prod(shape)) if shape else 1
-        kinds = []
-        Es = []
-        for _ in range(npos):
-            E, kind = gen.gen_spectrum(rng, nf, nd or 1, exact=exact)
-            if not exact and kind not in ("zero",):
-                E = E * rng.choice([1e-3, 1.0, 37.5])
-            Es.append(E)
-            kinds.append(kind)
-        arr = np.array(Es).reshape(tuple(shape) + (nf, nd or 1))
-        if oned:
-            arr = arr[..., 0]
-        da = gen.make_da(freq, dirs, arr, dtype=dtype, extra=extra)
-        if rng.random() < 0.3 and da.ndim > 1:
-            perm = list(da.dims)
-            rng.shuffle(perm)
-            da = da.transpose(*perm)
-        use_ds = rng.random() < 0.3
-        obj = da.to_dataset(name="efth") if use_ds else da
-        depth = rng.choice([None, None, 5.0, 30.0, 200.0])
-        tail = rng.random() < 0.8
-        # ---------------- implementation
-        sp = obj.spec
-        impl = {}
-        try:
-            impl["hs"] = sp.hs(tail=tail)
-            impl["hrms"] = sp.hrms(tail=tail)
-            for k in range(5):
-                impl[f"m{k}"] = sp.momf(k)
-            impl["tm01"] = sp.tm01()
-            impl["tm02"] = sp.tm02()
-            impl["swe"] = sp.swe()
-            impl["sw"] = sp.sw()
-            impl["gw"] = sp.gw()
-            impl["goda"] = sp.goda()
-            impl["mss"] = sp.mss(depth=depth)
-            impl["oned"] = sp.oned()
-            impl["energy"] = sp.to_energy()
-            impl["hmax"] = sp.hmax()
-            if not oned:
-                ms, mc = sp.momd(1)
-                impl["msin"], impl["mcos"] = ms, mc
-                impl["dm"] = sp.dm()
-                impl["dspr"] = sp.dspr()
-                impl["uss"] = sp.uss(depth=depth)
-                impl["ussx"] = sp.uss_x(depth=depth)
-                impl["ussy"] = sp.uss_y(depth=depth)
-        except Exception as e:  # C20 territory, but a crash on valid input is reported here too
-            ck.fail("stats", f"{type(e).__name__}: {e}", dict(case=icase, nf=nf, nd=nd, kinds=kinds), None)
-            continue
-        rel = 1e-9 if dtype == "float64" else 8e-6
-        lead = [d for d in da.dims if d not in ("freq", "dir")]
-        positions = [dict(zip(lead, idx)) for idx in np.ndindex(*[da.sizes[d] for d in lead])]
-        rng.shuffle(positions)
-        for pos in positions[:3]:
-            sub = da.isel(pos)
-            E2 = sub.transpose("freq", "dir").values if not oned else sub.values[:, None]
-            E2 = np.asarray(E2)
-            kt = k_table(freq, depth)
-            fk = 4 * PI * freq * kt
-            if oned:
-                s = c = []
-            else:
-                s, c = gen.trig_tables(dirs)
-            reqs.append(" ".join(["stats", "1" if tail else "0", enc_v(freq), enc_optv(dirs), enc_m(E2, E2.shape[1]),
-                                  enc_v(s), enc_v(c), enc_v(fk), enc_v(kt ** 2)]))
-            kind = kinds[0] if npos == 1 else "multi"
-            ctxs.append(dict(icase=icase, pos=pos, impl=impl, freq=freq, dirs=dirs, E=E2, tail=tail, depth=depth, rel=rel,
-                             dtype=dtype, oned=oned, has_time=("time" in da.dims and da.sizes["time"] > 1),
-                             dt=(float((extra[[n for n, _ in extra].index("time")][1][1] - extra[[n for n, _ in extra].index("time")][1][0]) / np.timedelta64(1, "s")) if ("time" in da.dims and da.sizes["time"] > 1) else None),
-                             sig=gen.signature(nf, nd or 0, fkind, order, kind, dtype, len(lead), "ds" if use_ds else "da"),
-                             nontrivial=bool(E2.any()) and nf >= 2,
-                             desc=dict(nf=nf, nd=nd, fkind=fkind, order=order, kinds=kinds[:3], dtype=dtype, dims=list(da.dims),
-                                       tail=tail, depth=depth)))
+                reqs.append(req)
+                ctxs.append(ctx)
     resps = run_driver(reqs)
     for req, ctx, resp in zip(reqs, ctxs, resps):
         st, mo = parse_resp(resp)
@@ -188,10 +210,7 @@ def run_check():
         pos = ctx["pos"]
 
         def at(name):
-            v = impl[name]
-            if hasattr(v, "data_vars"):
-                v = v[list(v.data_vars)[0]]
-            return v.isel({k: i for k, i in pos.items() if k in v.dims})
+            return impl[name]
 
         def cmp(name, implv, modelv, scale=None, relx=None, abs_=1e-300):
             if not close(implv, modelv, rel=relx or rel, scale=scale, abs_=abs_):
